@@ -329,3 +329,35 @@ SUBCLASSES = {
     "ValueError": {"UnicodeDecodeError", "UnicodeError"},
     "ArithmeticError": {"OverflowError", "ZeroDivisionError"},
 }
+
+
+def atomic_tests(events: list) -> list[list]:
+    """The alternatives of one path with every ``("test", a and/or b, outcome)`` event split into
+    tests of the operands, following short-circuit evaluation: ``a or b`` is True on `a` or on
+    `not a, b`, False on `not a, not b`; ``a and b`` dually; ``not x`` flips the outcome.  One path
+    with a compound condition becomes several paths whose conditions are atoms, so a rule sees the
+    same (test, outcome) pairs whether two guards are written as two ``if`` statements or merged
+    into one."""
+
+    def split(test: ast.AST, outcome: bool) -> list[list]:
+        if isinstance(test, ast.UnaryOp) and isinstance(test.op, ast.Not):
+            return split(test.operand, not outcome)
+        if isinstance(test, ast.BoolOp):
+            is_or = isinstance(test.op, ast.Or)
+            head, rest = test.values[0], test.values[1:]
+            tail = rest[0] if len(rest) == 1 else ast.copy_location(ast.BoolOp(op=test.op, values=rest), test)
+            if outcome == is_or:  # decided by the first operand that has this outcome
+                first = split(head, outcome)
+                later = [a + b for a in split(head, not outcome) for b in split(tail, outcome)]
+                return first + later
+            return [a + b for a in split(head, outcome) for b in split(tail, outcome)]
+        return [[("test", test, outcome)]]
+
+    out: list[list] = [[]]
+    for e in events:
+        if e[0] == "test" and len(e) == 3:
+            alts = split(e[1], e[2])
+            out = [p + a for p in out for a in alts]
+        else:
+            out = [p + [e] for p in out]
+    return out
